@@ -175,7 +175,7 @@ Proof.
               rewrite P, Lb, Fr, Pp, Z.eqb_refl, Ce. cbn. discriminate.
            ++ exists (CT_FLUSHBAR b (fi_shutdown fi) (1 + br_xrows r) (fi_rm fi) (fi_nopop fi) false). split; [reflexivity|].
               unfold enabled, step. rewrite P, Lb, Fr, Pp, Z.eqb_refl, Ce, !Z.eqb_refl, !eqb_reflx. cbn [negb andb].
-              destruct (take_rows _ _ _) as [taken used]. simp_state.
+              destruct (flush_take _ _ _ _) as [taken used]. simp_state.
               destruct (fi_shutdown fi =? 1).
               ** destruct (successors b (queue s)) as [|qb qbs] eqn:Lq.
                  --- destruct (pop_mode s && negb (fi_nopop fi)); [discriminate|]. destruct (negb (fi_rm fi)); discriminate.
